@@ -174,7 +174,7 @@ def run(ctx):
     # (1) exhaustive I => P; broken variants must be refuted, variants the statement does not forbid must pass
     runs = [("MC_small4_none.cfg", "I=>P: every sequence up to length 4, small alphabet", None)] if not T else \
            [("MC_large.cfg", "I=>P: every sequence up to length 4, large alphabet", None),
-            ("MC_small5_none.cfg", "I=>P: every sequence up to length 5, small alphabet", None)]
+            ("MC_small6_none.cfg", "I=>P: every sequence up to length 6, small alphabet", None)]
     runs += [("MC_small_%s.cfg" % b, "non-vacuity: %s must be refuted" % b, "Conforms") for b in REFUTED]
     runs += [("MC_small_%s.cfg" % b, "permissiveness: %s must be accepted" % b, "accepted") for b in ACCEPTED]
     exhaustive_parallel(ctx, sd, "MC_C07", runs, workers=4 if not T else 8, par=7 if not T else 3)
